@@ -52,7 +52,7 @@ CHECKS = {
   text="Generated signed blocks: every single-field perturbation must change the block hash or the part-set hash (or fail ValidateBasic when hashes are not re-derived); receiver-side part sets fed permutations, duplicates, truncated/index-shifted (negative and >= total)/proof-tampered/foreign parts accept only byte-identical parts and reassemble the proposer's bytes. Held on the blocks and schedules explored.",
   note="no confidential transactions in generated blocks; fields covered only by the part-set hash (Header.Recover, Commit.BlockID) are counted as such, which the property allows."),
  "C13": dict(
-  level="exploration", design="§5 C13", engine="chainkit",
+  level="fault_enumeration", design="§5 C13", engine="chainkit",
   technique="crash-point enumeration by fault injection at the database boundary of the real commit path (every store wrapped; the commit is cut after each individual write or batch, all forced orders of SaveBlock's concurrent writers, undo file cut accordingly), restart of a real node on the surviving bytes and a cross-store consistency oracle against a reference replica; pruning lane: generated chains, windows and validator-change heights with a read-back oracle over every retained height",
   text="Crash lane: chains of 4-5 blocks (transfers, A->U, U->U, U->A, contract create/call, duplicate-vote evidence) in trie and flat key-value mode; for every block and every cut k=0..W (W=15-21 units) the node is restarted and block store, balances/nonces/contract storage, spent key images, output index, tx index and receipts, status and VALDK/CSPK records must all reflect the same prefix, the acknowledged block must be present, the interrupted block must be re-committable and one more block must commit; recovery itself is crashed after each of its writes. "
        "Pruning lane: chain lengths 1..40, K in {1,2,5,10,50,100}, validator changes, 1-3 ticks: for every retained height block, meta, parts, commits, tx index, LoadValidators, LoadConsensusParams must be readable, the seen commit must verify against the loaded validators and evidence of that height must be verifiable; deletion must stay within a 10^6-operation budget. Held on what was explored, modulo two known findings (one root cause).",
